@@ -15,12 +15,17 @@ objects by `harness/lib/zhcorr.py`); here the statements of `Props/C08.lean` are
   as `[start, end)` with the matching TIMEX
 * 5月1日到5日 with a year: a consistent `(start,end,PnD)` triple; 前N天 / 未来N周: consistent `(start,end,PnD|W)` triples
 
-and where the Chinese code **differs** a witness is proved (each is replayed on the implementation by `zhcorr.witnesses`):
-今年 is "year to date" (`zh_this_year_is_year_to_date`); N个月前 / N年后 do not use N (`zh_months_years_ignore_number`);
-a relative month in 这个月1日到5日 is clamped as if months were 0-based and its values may lie in another year than its
-definite TIMEX (`zh_simple_cases_relative_month_witnesses`); the fourth quarter ends on `0001-01-01`
-(`zh_quarter4_end_is_min_value`); 上上周 / 下下个月 shift by one (`zh_double_prefix_shifts_once`); 下週 passes the
-one-word pattern but none of the classifiers and is answered with the current month (`zh_traditional_week_falls_through`).
+Three statements failed on the code as it was found; each has a proposed `fix:` (findings/zhdt/*.diff), the model
+carries **both variants** (the harness probes the tree on a fixed input and compares with the variant the tree follows),
+the repaired variant is proved at full strength and the pre-fix variant is kept as a labelled regression with its witness:
+N个月前 / N年后 did not use N (`zh_n_months_ago`, `zh_n_months_later`, `zh_n_years_ago`, `zh_n_years_later` for the repaired code;
+`zh_months_years_prefix_regression`); a relative month in 这个月1日到5日 was clamped as if months were 0-based and its values
+could lie in another year than its definite TIMEX (`zh_simple_cases_relative_month_fixed`; `zh_simple_cases_prefix_regression`);
+the fourth quarter ended on `0001-01-01` (`zh_quarter_ok`; `zh_quarter4_prefix_regression`).
+Where the Chinese code **differs** from the property and stays so a witness is proved (replayed on the implementation by
+`zhcorr.witnesses`): 今年 is "year to date" (`zh_this_year_is_year_to_date`, recorded: the Specs expect it); 上上周 / 下下个月
+shift by one (`zh_double_prefix_shifts_once`); 下週 passes the one-word pattern but none of the classifiers and is answered
+with the current month (`zh_traditional_week_falls_through`).
 -/
 namespace RTV.ZhDT
 open RTV.Cal RTV.DateUtils RTV.WF
@@ -153,7 +158,7 @@ theorem zh_n_days_later (R : DateTime) (hv : R.date.valid = true) (n : Nat) (t :
 /-- N周 is 7N天, in both directions. -/
 theorem zh_n_weeks_is_7n_days (R : DateTime) (n : Nat) (before after : Bool) :
     agoLater R .W n before after = agoLater R .D (7 * n : Nat) before after := by
-  cases before <;> cases after <;> simp [agoLater] <;> congr 2 <;> omega
+  cases before <;> cases after <;> simp [agoLater, agoLaterPreFix] <;> congr 2 <;> omega
 
 /-- The result exists exactly when it stays inside 0001-01-01..9999-12-31. -/
 theorem zh_n_days_defined (R : DateTime) (hv : R.date.valid = true) (n : Nat) :
@@ -162,9 +167,9 @@ theorem zh_n_days_defined (R : DateTime) (hv : R.date.valid = true) (n : Nat) :
   have rr := ord_range R.date hv
   constructor <;> intro h
   · obtain ⟨r, hr⟩ := addDays_isSome R (-(n : Int)) (by omega) (by omega)
-    exact ⟨luisDateOf r, r, by simp [agoLater, hr]⟩
+    exact ⟨luisDateOf r, r, by simp [agoLater, agoLaterPreFix, hr]⟩
   · obtain ⟨r, hr⟩ := addDays_isSome R (n : Int) (by omega) (by omega)
-    exact ⟨luisDateOf r, r, by simp [agoLater, hr]⟩
+    exact ⟨luisDateOf r, r, by simp [agoLater, agoLaterPreFix, hr]⟩
 
 /-- the recorded fix `6a59a11ef`: 100天前 asked on 2020-01-31 is 2019-10-23 (the pre-fix code read `10`). -/
 example : agoLater ⟨⟨2020, 1, 31⟩, 52200⟩ .D 100 true false =
@@ -172,33 +177,13 @@ example : agoLater ⟨⟨2020, 1, 31⟩, 52200⟩ .D 100 true false =
 example : agoLater ⟨⟨2020, 1, 31⟩, 52200⟩ .W 2 false true =
     .ok (luisDate 2020 2 14) ⟨⟨2020, 2, 14⟩, 52200⟩ ⟨⟨2020, 2, 14⟩, 52200⟩ := by decide
 
-/-! ### where the code differs: N个月前 / N年后 do not use N -/
+/-! ## N个月前 / N个月后 / N年前 / N年后 (the repaired code: `reference + datedelta(months | years = ∓N)`) -/
 
-/-- For months and years the number is not used: N个月前 is what 1个月前 is, N年后 what 1年后 is — for every reference
-and every N. -/
-theorem zh_months_years_ignore_number (R : DateTime) (n : Int) (before after : Bool) :
-    agoLater R .MON n before after = agoLater R .MON 1 before after ∧
-    agoLater R .Y n before after = agoLater R .Y 1 before after := by
-  cases before <;> cases after <;> exact ⟨rfl, rfl⟩
-
-/-- Witnesses: 2年前 asked on 2020-01-31 → 2019-01-31 (the repaired variant: 2018-01-31); 3个月前 asked in January
-raises (`replace(month=0)`); 1个月后 asked on 2020-01-31 raises (February 31st); 1年后 asked on a 29 February raises. -/
-theorem zh_months_years_witnesses :
-    agoLater ⟨⟨2020, 1, 31⟩, 52200⟩ .Y 2 true false =
-      .ok (luisDate 2019 1 31) ⟨⟨2019, 1, 31⟩, 52200⟩ ⟨⟨2019, 1, 31⟩, 52200⟩ ∧
-    agoLaterFixed ⟨⟨2020, 1, 31⟩, 52200⟩ .Y 2 true false =
-      .ok (luisDate 2018 1 31) ⟨⟨2018, 1, 31⟩, 52200⟩ ⟨⟨2018, 1, 31⟩, 52200⟩ ∧
-    agoLater ⟨⟨2020, 1, 31⟩, 52200⟩ .MON 3 true false = .raises ∧
-    agoLater ⟨⟨2020, 1, 31⟩, 52200⟩ .MON 1 false true = .raises ∧
-    agoLater ⟨⟨2020, 2, 29⟩, 0⟩ .Y 1 false true = .raises ∧
-    agoLaterFixed ⟨⟨2020, 1, 31⟩, 52200⟩ .MON 3 true false =
-      .ok (luisDate 2019 10 31) ⟨⟨2019, 10, 31⟩, 52200⟩ ⟨⟨2019, 10, 31⟩, 52200⟩ := by
-  refine ⟨?_, ?_, ?_, ?_, ?_, ?_⟩ <;> decide
-
-/-- The repaired variant keeps days and weeks and moves a year by exactly N years. -/
-theorem zh_years_ago_fixed (R : DateTime) (hv : R.date.valid = true) (n : Nat) (after : Bool) (t : Str) (f p : DateTime)
-    (h : agoLaterFixed R .Y n true after = .ok t f p) :
-    f = p ∧ f.date.valid = true ∧ (f.date.y : Int) = R.date.y - n ∧ f.secs = R.secs := by
+/-- N年前: the reference moved back by exactly N years (29 February → 28 February in a non-leap year, by the datedelta
+semantics), time of day kept — for every reference and every N. -/
+theorem zh_n_years_ago (R : DateTime) (hv : R.date.valid = true) (n : Nat) (after : Bool) (t : Str) (f p : DateTime)
+    (h : agoLater R .Y n true after = .ok t f p) :
+    f = p ∧ f.date.valid = true ∧ (f.date.y : Int) = R.date.y - n ∧ f.secs = R.secs ∧ t = luisDateOf f := by
   have s := optDate_ok (addDelta R (-(n : Int)) 0 0) t f p h
   unfold addDelta at s
   cases hd : datedeltaAdd R.date (-(n : Int)) 0 0 with
@@ -206,9 +191,94 @@ theorem zh_years_ago_fixed (R : DateTime) (hv : R.date.valid = true) (n : Nat) (
   | some d =>
     simp only [hd, Option.map_some, Option.some.injEq] at s
     have y := datedeltaAdd_years R.date hv _ d hd
-    obtain ⟨s1, s2, _⟩ := s
+    obtain ⟨s1, s2, s3⟩ := s
     subst s1
-    exact ⟨s2, y.1, by simp only; omega, rfl⟩
+    exact ⟨s2, y.1, by simp only; omega, rfl, s3⟩
+
+/-- N年后: forward by exactly N years. -/
+theorem zh_n_years_later (R : DateTime) (hv : R.date.valid = true) (n : Nat) (t : Str) (f p : DateTime)
+    (h : agoLater R .Y n false true = .ok t f p) :
+    f = p ∧ f.date.valid = true ∧ (f.date.y : Int) = R.date.y + n ∧ f.secs = R.secs ∧ t = luisDateOf f := by
+  have s := optDate_ok (addDelta R (n : Int) 0 0) t f p h
+  unfold addDelta at s
+  cases hd : datedeltaAdd R.date (n : Int) 0 0 with
+  | none => simp [hd] at s
+  | some d =>
+    simp only [hd, Option.map_some, Option.some.injEq] at s
+    have y := datedeltaAdd_years R.date hv _ d hd
+    obtain ⟨s1, s2, s3⟩ := s
+    subst s1
+    exact ⟨s2, y.1, by simp only; omega, rfl, s3⟩
+
+/-- N个月前: the month of the reference moved back by exactly N calendar months (`shiftMonth`), the day clamped to the
+month's end when it does not exist (datedelta semantics), time of day kept — for every reference and every N. -/
+theorem zh_n_months_ago (R : DateTime) (hv : R.date.valid = true) (n : Nat) (after : Bool) (t : Str) (f p : DateTime)
+    (h : agoLater R .MON n true after = .ok t f p) :
+    f = p ∧ f.date.valid = true ∧ ((f.date.y : Int), f.date.m) = shiftMonth R.date.y R.date.m (-(n : Int)) ∧
+    f.secs = R.secs ∧ t = luisDateOf f := by
+  have s := optDate_ok (addDelta R 0 (-(n : Int)) 0) t f p h
+  unfold addDelta at s
+  cases hd : datedeltaAdd R.date 0 (-(n : Int)) 0 with
+  | none => simp [hd] at s
+  | some d =>
+    simp only [hd, Option.map_some, Option.some.injEq] at s
+    have y := datedeltaAdd_months R.date hv _ d hd (Or.inl (by omega))
+    obtain ⟨s1, s2, s3⟩ := s
+    subst s1
+    exact ⟨s2, y.1, by simp only; rw [Prod.ext_iff]; exact ⟨y.2.1, y.2.2⟩, rfl, s3⟩
+
+/-- N个月后: forward by exactly N calendar months whenever the reference's day exists in the target month (otherwise the
+datedelta semantics roll forward to the 1st of the month after: `monthStep`). -/
+theorem zh_n_months_later (R : DateTime) (hv : R.date.valid = true) (n : Nat) (t : Str) (f p : DateTime)
+    (h : agoLater R .MON n false true = .ok t f p)
+    (g : R.date.d ≤ daysInMonth (shiftMonth R.date.y R.date.m n).1.toNat (shiftMonth R.date.y R.date.m n).2) :
+    f = p ∧ f.date.valid = true ∧ ((f.date.y : Int), f.date.m) = shiftMonth R.date.y R.date.m (n : Int) ∧
+    f.secs = R.secs ∧ t = luisDateOf f := by
+  have s := optDate_ok (addDelta R 0 (n : Int) 0) t f p h
+  unfold addDelta at s
+  cases hd : datedeltaAdd R.date 0 (n : Int) 0 with
+  | none => simp [hd] at s
+  | some d =>
+    simp only [hd, Option.map_some, Option.some.injEq] at s
+    have y := datedeltaAdd_months R.date hv _ d hd (Or.inr g)
+    obtain ⟨s1, s2, s3⟩ := s
+    subst s1
+    exact ⟨s2, y.1, by simp only; rw [Prod.ext_iff]; exact ⟨y.2.1, y.2.2⟩, rfl, s3⟩
+
+/-- days and weeks are untouched by the repair -/
+theorem zh_ago_later_days_weeks_unchanged (R : DateTime) (n : Int) (before after : Bool) :
+    agoLater R .D n before after = agoLaterPreFix R .D n before after ∧
+    agoLater R .W n before after = agoLaterPreFix R .W n before after := by
+  cases before <;> cases after <;> exact ⟨rfl, rfl⟩
+
+example : agoLater ⟨⟨2020, 1, 31⟩, 52200⟩ .MON 3 true false =
+    .ok (luisDate 2019 10 31) ⟨⟨2019, 10, 31⟩, 52200⟩ ⟨⟨2019, 10, 31⟩, 52200⟩ := by decide
+example : agoLater ⟨⟨2020, 1, 31⟩, 52200⟩ .MON 1 false true =
+    .ok (luisDate 2020 3 1) ⟨⟨2020, 3, 1⟩, 52200⟩ ⟨⟨2020, 3, 1⟩, 52200⟩ := by decide       -- datedelta rolls forward
+example : agoLater ⟨⟨2020, 2, 29⟩, 0⟩ .Y 2 true false =
+    .ok (luisDate 2018 2 28) ⟨⟨2018, 2, 28⟩, 0⟩ ⟨⟨2018, 2, 28⟩, 0⟩ := by decide
+
+/-! ### REGRESSION (pre-fix code): N个月前 / N年后 did not use N -/
+
+/-- For months and years the pre-fix code did not use the number: N个月前 was what 1个月前 is, N年后 what 1年后 is — for
+every reference and every N. -/
+theorem zh_months_years_prefix_ignore_number (R : DateTime) (n : Int) (before after : Bool) :
+    agoLaterPreFix R .MON n before after = agoLaterPreFix R .MON 1 before after ∧
+    agoLaterPreFix R .Y n before after = agoLaterPreFix R .Y 1 before after := by
+  cases before <;> cases after <;> exact ⟨rfl, rfl⟩
+
+/-- Regression witnesses: 2年前 asked on 2020-01-31 → 2019-01-31 (repaired: 2018-01-31); 3个月前 asked in January raised
+(`replace(month=0)`; repaired: 2019-10-31); 1个月后 asked on 2020-01-31 raised (February 31st); 1年后 asked on a
+29 February raised. -/
+theorem zh_months_years_prefix_regression :
+    agoLaterPreFix ⟨⟨2020, 1, 31⟩, 52200⟩ .Y 2 true false =
+      .ok (luisDate 2019 1 31) ⟨⟨2019, 1, 31⟩, 52200⟩ ⟨⟨2019, 1, 31⟩, 52200⟩ ∧
+    agoLater ⟨⟨2020, 1, 31⟩, 52200⟩ .Y 2 true false =
+      .ok (luisDate 2018 1 31) ⟨⟨2018, 1, 31⟩, 52200⟩ ⟨⟨2018, 1, 31⟩, 52200⟩ ∧
+    agoLaterPreFix ⟨⟨2020, 1, 31⟩, 52200⟩ .MON 3 true false = .raises ∧
+    agoLaterPreFix ⟨⟨2020, 1, 31⟩, 52200⟩ .MON 1 false true = .raises ∧
+    agoLaterPreFix ⟨⟨2020, 2, 29⟩, 0⟩ .Y 1 false true = .raises := by
+  refine ⟨?_, ?_, ?_, ?_, ?_⟩ <;> decide
 
 /-! ## 这周 / 下周 / 上周 -/
 
@@ -311,19 +381,21 @@ theorem zh_traditional_week_falls_through :
 
 /-- Month named and a year in the text, both days exist, `begin_day ≤ end_day`: the values are those two dates
 (future = past), the TIMEX is the `dayTriple` of Props/C10 and satisfies `tripleOK`; with `begin_day < end_day` the range
-is well formed — for every reference. -/
-theorem zh_simple_cases_definite_ok (R : DateTime) (y m bd ed : Nat) (rs : Int) (fu : Bool)
+is well formed — for every reference, in both variants of the
+code (`fx`). -/
+theorem zh_simple_cases_definite_ok (fx : Bool) (R : DateTime) (y m bd ed : Nat) (rs : Int) (fu : Bool)
     (hb : (⟨y, m, bd⟩ : Date).valid = true) (he : (⟨y, m, ed⟩ : Date).valid = true) (hle : bd ≤ ed) :
-    simpleCases R bd ed (some m) rs fu (some (y : Int)) =
+    simpleCasesG fx R bd ed (some m) rs fu (some (y : Int)) =
       .ok (dayTriple ⟨y, m, bd⟩ ⟨y, m, ed⟩) ⟨⟨y, m, bd⟩, 0⟩ ⟨⟨y, m, ed⟩, 0⟩ ⟨⟨y, m, bd⟩, 0⟩ ⟨⟨y, m, ed⟩, 0⟩ ∧
     tripleOK (dayTriple ⟨y, m, bd⟩ ⟨y, m, ed⟩) (some (formatDate ⟨y, m, bd⟩)) (some (formatDate ⟨y, m, ed⟩)) = true ∧
     (bd < ed → 2 ≤ y → Periods.rangeOK ⟨⟨y, m, bd⟩, 0⟩ ⟨⟨y, m, ed⟩, 0⟩) := by
   have hord : (⟨y, m, bd⟩ : Date).ord ≤ (⟨y, m, ed⟩ : Date).ord := by simp only [Date.ord]; omega
   refine ⟨?_, between_dates_consistent _ _ hb he hord, ?_⟩
-  · unfold simpleCases generateDates
-    simp only [Option.getD_some, Option.isSome_some, Bool.true_or, if_true, Bool.not_true, Bool.false_eq_true, if_false,
+  · unfold simpleCasesG generateDates
+    cases fx
+    all_goals simp only [Option.getD_some, Option.isSome_some, Bool.true_or, if_true, Bool.not_true, Bool.false_eq_true, if_false, Bool.false_and,
       Periods.luis_some, safeCreate_ymd y m bd hb, safeCreate_ymd y m ed he, Periods.intStr_nonneg bd ed hle]
-    simp [dayTriple, Periods.same_month_ord y m bd ed hle]
+    all_goals simp [dayTriple, Periods.same_month_ord y m bd ed hle]
   · intro hlt hy
     exact ⟨hb, he, by simp only [Date.ord]; omega, Periods.ne_min_of_year _ hy, Periods.ne_min_of_year _ hy⟩
 
@@ -331,17 +403,62 @@ example : simpleCases ⟨⟨2020, 1, 31⟩, 52200⟩ 1 5 (some 5) 0 false none =
     .ok (Py.ofString "(XXXX-05-01,XXXX-05-05,P4D)") ⟨⟨2020, 5, 1⟩, 0⟩ ⟨⟨2020, 5, 5⟩, 0⟩ ⟨⟨2019, 5, 1⟩, 0⟩ ⟨⟨2019, 5, 5⟩, 0⟩ := by
   decide +kernel
 
-/-- **Where the code differs** — a relative month (这个月 / 下个月 / 上个月 D1日到D2日): the month window is `< 0 → 0`,
-`> 11 → 11` (0-based months on 1-based values) and the year of the values is moved by `generate_dates` although the
-TIMEX is definite. Witnesses: (1) 这个月1日到5日 asked on 2020-12-15 → November 2021 / November 2020; (2) 上个月… asked in
-January → month 0, values `0001-01-01`; (3) 下个月1日到5日 asked on 2020-01-31 → TIMEX `(2020-02-01,2020-02-05,P4D)` with
-past value 2019-02-01..05, which `tripleOK` rejects. -/
-theorem zh_simple_cases_relative_month_witnesses :
-    simpleCases ⟨⟨2020, 12, 15⟩, 0⟩ 1 5 none 0 true none =
+/-- A relative month (这个月 / 下个月 / 上个月 D1日到D2日, `rs` = 0 / +1 / −1) in the repaired code: the month is the
+reference's month shifted by `rs` (`shiftMonth`, over the year boundary), the values are the two days of that month
+(future = past), for every reference; with a this- / next-prefix (`fu`) the TIMEX is the definite `dayTriple` of those
+very dates and satisfies `tripleOK` (with 上个月 the TIMEX has an open year and demands nothing). -/
+theorem zh_simple_cases_relative_month_fixed (R : DateTime) (hv : R.date.valid = true) (rs : Int) (hrs : -1 ≤ rs ∧ rs ≤ 1)
+    (bd ed : Nat) (fu : Bool) (Y M : Nat) (hYM : ((Y : Int), M) = shiftMonth R.date.y R.date.m rs)
+    (hb : (⟨Y, M, bd⟩ : Date).valid = true) (he : (⟨Y, M, ed⟩ : Date).valid = true) (hle : bd ≤ ed) :
+    simpleCases R bd ed none rs fu none =
+      .ok ([40] ++ Periods.luis (if fu then some (Y : Int) else none) M bd ++ [44] ++
+            Periods.luis (if fu then some (Y : Int) else none) M ed ++ [44, 80] ++ natStr (ed - bd) ++ [68, 41])
+        ⟨⟨Y, M, bd⟩, 0⟩ ⟨⟨Y, M, ed⟩, 0⟩ ⟨⟨Y, M, bd⟩, 0⟩ ⟨⟨Y, M, ed⟩, 0⟩ ∧
+    (fu = true →
+      [40] ++ Periods.luis (some (Y : Int)) M bd ++ [44] ++ Periods.luis (some (Y : Int)) M ed ++ [44, 80] ++ natStr (ed - bd) ++
+        [68, 41] = dayTriple ⟨Y, M, bd⟩ ⟨Y, M, ed⟩ ∧
+      tripleOK (dayTriple ⟨Y, M, bd⟩ ⟨Y, M, ed⟩) (some (formatDate ⟨Y, M, bd⟩)) (some (formatDate ⟨Y, M, ed⟩)) = true) := by
+  have hvy := (valid_iff R.date).1 hv
+  have hord : (⟨Y, M, bd⟩ : Date).ord ≤ (⟨Y, M, ed⟩ : Date).ord := by simp only [Date.ord]; omega
+  unfold shiftMonth at hYM
+  simp only [Prod.mk.injEq] at hYM
+  have hwin : (if (R.date.m : Int) + rs < 1 then ((R.date.y : Int) - 1, 12)
+      else if (R.date.m : Int) + rs > 12 then ((R.date.y : Int) + 1, 1) else ((R.date.y : Int), ((R.date.m : Int) + rs).toNat)) =
+      ((Y : Int), M) := by
+    by_cases c1 : (R.date.m : Int) + rs < 1
+    · rw [if_pos c1, Prod.mk.injEq]; omega
+    · rw [if_neg c1]
+      by_cases c2 : (R.date.m : Int) + rs > 12
+      · rw [if_pos c2, Prod.mk.injEq]; omega
+      · rw [if_neg c2, Prod.mk.injEq]; omega
+  refine ⟨?_, fun _ => ⟨?_, between_dates_consistent _ _ hb he hord⟩⟩
+  · unfold simpleCases simpleCasesG generateDates
+    simp only [if_true, hwin, Option.getD_none, Option.isSome_none, Bool.false_or, Bool.not_false, Bool.and_false,
+      Bool.false_eq_true, if_false, safeCreate_ymd Y M bd hb, safeCreate_ymd Y M ed he, Periods.intStr_nonneg bd ed hle]
+  · simp [dayTriple, Periods.luis_some, Periods.same_month_ord Y M bd ed hle]
+
+example : simpleCases ⟨⟨2020, 12, 15⟩, 0⟩ 1 5 none 0 true none =
+    .ok (Py.ofString "(2020-12-01,2020-12-05,P4D)") ⟨⟨2020, 12, 1⟩, 0⟩ ⟨⟨2020, 12, 5⟩, 0⟩ ⟨⟨2020, 12, 1⟩, 0⟩ ⟨⟨2020, 12, 5⟩, 0⟩ := by
+  decide +kernel
+example : simpleCases ⟨⟨2020, 12, 15⟩, 0⟩ 1 5 none 1 true none =
+    .ok (Py.ofString "(2021-01-01,2021-01-05,P4D)") ⟨⟨2021, 1, 1⟩, 0⟩ ⟨⟨2021, 1, 5⟩, 0⟩ ⟨⟨2021, 1, 1⟩, 0⟩ ⟨⟨2021, 1, 5⟩, 0⟩ := by
+  decide +kernel
+example : simpleCases ⟨⟨2020, 1, 31⟩, 52200⟩ 1 5 none (-1) false none =
+    .ok (Py.ofString "(XXXX-12-01,XXXX-12-05,P4D)") ⟨⟨2019, 12, 1⟩, 0⟩ ⟨⟨2019, 12, 5⟩, 0⟩ ⟨⟨2019, 12, 1⟩, 0⟩ ⟨⟨2019, 12, 5⟩, 0⟩ := by
+  decide +kernel
+
+/-! ### REGRESSION (pre-fix code): the relative month of a simple range -/
+
+/-- Regression witnesses — the pre-fix month window was `< 0 → 0`, `> 11 → 11` (0-based months on 1-based values) and the
+year of the values was moved by `generate_dates` although the TIMEX was definite: (1) 这个月1日到5日 asked on 2020-12-15 →
+November 2021 / November 2020; (2) 上个月… asked in January → month 0, values `0001-01-01`; (3) 下个月1日到5日 asked on
+2020-01-31 → TIMEX `(2020-02-01,2020-02-05,P4D)` with past value 2019-02-01..05, which `tripleOK` rejects. -/
+theorem zh_simple_cases_prefix_regression :
+    simpleCasesPreFix ⟨⟨2020, 12, 15⟩, 0⟩ 1 5 none 0 true none =
       .ok (Py.ofString "(2021-11-01,2021-11-05,P4D)") ⟨⟨2021, 11, 1⟩, 0⟩ ⟨⟨2021, 11, 5⟩, 0⟩ ⟨⟨2020, 11, 1⟩, 0⟩ ⟨⟨2020, 11, 5⟩, 0⟩ ∧
-    simpleCases ⟨⟨2020, 1, 31⟩, 52200⟩ 1 5 none (-1) false none =
+    simpleCasesPreFix ⟨⟨2020, 1, 31⟩, 52200⟩ 1 5 none (-1) false none =
       .ok (Py.ofString "(XXXX-00-01,XXXX-00-05,P4D)") DateUtils.minValue DateUtils.minValue DateUtils.minValue DateUtils.minValue ∧
-    simpleCases ⟨⟨2020, 1, 31⟩, 52200⟩ 1 5 none 1 true none =
+    simpleCasesPreFix ⟨⟨2020, 1, 31⟩, 52200⟩ 1 5 none 1 true none =
       .ok (Py.ofString "(2020-02-01,2020-02-05,P4D)") ⟨⟨2020, 2, 1⟩, 0⟩ ⟨⟨2020, 2, 5⟩, 0⟩ ⟨⟨2019, 2, 1⟩, 0⟩ ⟨⟨2019, 2, 5⟩, 0⟩ ∧
     tripleOK (Py.ofString "(2020-02-01,2020-02-05,P4D)") (some (Py.ofString "2019-02-01")) (some (Py.ofString "2019-02-05")) = false := by
   refine ⟨?_, ?_, ?_, ?_⟩ <;> decide +kernel
@@ -495,13 +612,57 @@ theorem zh_convert_year_digits (whole : Int) (hw : whole < 10) (d1 d2 d3 d4 : Na
 example : convertYearDate 0 [some 2, some 0, some 1, some 9] = 2019 := by decide
 example : convertYearDate 2001 [some 2, none, some 0, some 1] = 2001 := by decide      -- 二千零一
 
-/-- **Where the code differs**: the fourth quarter — `safe_create_from_min_value(year, 13, 1)` is `0001-01-01`
-(the entity is "not resolved"); quarters 1..3 are `[1st of the quarter, 1st of the next)`. -/
-theorem zh_quarter4_end_is_min_value :
-    zhQuarter 2019 4 = .ok (Py.ofString "(2019-10-01,0001-01-01,P3M)") ⟨⟨2019, 10, 1⟩, 0⟩ DateUtils.minValue ⟨⟨2019, 10, 1⟩, 0⟩
-      DateUtils.minValue ∧
-    zhQuarter 2019 3 = .ok (Py.ofString "(2019-07-01,2019-10-01,P3M)") ⟨⟨2019, 7, 1⟩, 0⟩ ⟨⟨2019, 10, 1⟩, 0⟩ ⟨⟨2019, 7, 1⟩, 0⟩
-      ⟨⟨2019, 10, 1⟩, 0⟩ := by
+/-- 2019年第N季度 (a year 100..9998 in the text, N = 1..4) in the repaired code: `[1st of the quarter, 1st of the next
+quarter)` — the fourth quarter ends on 1 January of the next year —, the triple `(begin,end,P3M)` is consistent and the
+range well formed. -/
+theorem zh_quarter_ok (y q : Nat) (h1 : 100 ≤ y) (h2 : y ≤ 9998) (q1 : 1 ≤ q) (q4 : q ≤ 4) :
+    zhQuarter (y : Int) q =
+      .ok (dateTriple (Periods.quarterBegin y q) (Periods.quarterEnd y q) 3 77) ⟨Periods.quarterBegin y q, 0⟩
+        ⟨Periods.quarterEnd y q, 0⟩ ⟨Periods.quarterBegin y q, 0⟩ ⟨Periods.quarterEnd y q, 0⟩ ∧
+    tripleOK (dateTriple (Periods.quarterBegin y q) (Periods.quarterEnd y q) 3 77) (some (formatDate (Periods.quarterBegin y q)))
+      (some (formatDate (Periods.quarterEnd y q))) = true ∧
+    Periods.rangeOK ⟨Periods.quarterBegin y q, 0⟩ ⟨Periods.quarterEnd y q, 0⟩ := by
+  have hadj : adjust9020 (y : Int) = y := by unfold adjust9020; rw [if_neg (by omega), if_neg (by omega)]
+  have q' : q = 1 ∨ q = 2 ∨ q = 3 ∨ q = 4 := by omega
+  have core : ∀ (m Y M : Nat), 1 ≤ m → m ≤ 12 → q * 3 - 2 = m → ((Y : Int), M) = shiftMonth y m 3 → 1 ≤ M → M ≤ 12 →
+      Y * 12 + M = y * 12 + m + 3 → Y ≤ 9999 → Periods.quarterBegin y q = ⟨y, m, 1⟩ → Periods.quarterEnd y q = ⟨Y, M, 1⟩ →
+      zhQuarter (y : Int) q =
+        .ok (dateTriple ⟨y, m, 1⟩ ⟨Y, M, 1⟩ 3 77) ⟨⟨y, m, 1⟩, 0⟩ ⟨⟨Y, M, 1⟩, 0⟩ ⟨⟨y, m, 1⟩, 0⟩ ⟨⟨Y, M, 1⟩, 0⟩ ∧
+      tripleOK (dateTriple ⟨y, m, 1⟩ ⟨Y, M, 1⟩ 3 77) (some (formatDate ⟨y, m, 1⟩)) (some (formatDate ⟨Y, M, 1⟩)) = true ∧
+      Periods.rangeOK ⟨⟨y, m, 1⟩, 0⟩ ⟨⟨Y, M, 1⟩, 0⟩ := by
+    intro m Y M a1 a2 hm hYM b1 b2 hsum hY _ _
+    have v1 := valid_first y m (by omega) (by omega) a1 a2
+    have ok := Periods.first_to_first_ok y m Y M 3 (by omega) hY a1 a2 b1 b2 (by omega) hsum
+    refine ⟨?_, ok.1, ok.2⟩
+    have am := addMonths_first y m 3 (by omega) a1 a2 Y M hYM (by omega) hY
+    unfold zhQuarter zhQuarterG
+    simp only [hadj, hm, if_true, Periods.mk_valid y m 1 v1, addDelta, am, Option.map_some]
+    simp [dateTriple, Periods.luisOf, Periods.natStr3]
+  rcases q' with c | c | c | c <;> subst c
+  · have r := core 1 y 4 (by omega) (by omega) rfl (by unfold shiftMonth; simp only [Prod.mk.injEq]; omega) (by omega) (by omega)
+      (by omega) (by omega) (by simp [Periods.quarterBegin]) (by simp [Periods.quarterEnd])
+    simpa [Periods.quarterBegin, Periods.quarterEnd] using r
+  · have r := core 4 y 7 (by omega) (by omega) rfl (by unfold shiftMonth; simp only [Prod.mk.injEq]; omega) (by omega) (by omega)
+      (by omega) (by omega) (by simp [Periods.quarterBegin]) (by simp [Periods.quarterEnd])
+    simpa [Periods.quarterBegin, Periods.quarterEnd] using r
+  · have r := core 7 y 10 (by omega) (by omega) rfl (by unfold shiftMonth; simp only [Prod.mk.injEq]; omega) (by omega) (by omega)
+      (by omega) (by omega) (by simp [Periods.quarterBegin]) (by simp [Periods.quarterEnd])
+    simpa [Periods.quarterBegin, Periods.quarterEnd] using r
+  · have r := core 10 (y + 1) 1 (by omega) (by omega) rfl (by unfold shiftMonth; simp only [Prod.mk.injEq]; omega) (by omega) (by omega)
+      (by omega) (by omega) (by simp [Periods.quarterBegin]) (by simp [Periods.quarterEnd])
+    simpa [Periods.quarterBegin, Periods.quarterEnd] using r
+
+example : zhQuarter 2019 4 = .ok (Py.ofString "(2019-10-01,2020-01-01,P3M)") ⟨⟨2019, 10, 1⟩, 0⟩ ⟨⟨2020, 1, 1⟩, 0⟩ ⟨⟨2019, 10, 1⟩, 0⟩
+    ⟨⟨2020, 1, 1⟩, 0⟩ := by decide +kernel
+
+/-! ### REGRESSION (pre-fix code): the fourth quarter -/
+
+/-- Regression witness: the pre-fix end of the fourth quarter was `safe_create_from_min_value(year, 13, 1)` =
+`0001-01-01` (the entity was "not resolved"); quarters 1..3 were right. -/
+theorem zh_quarter4_prefix_regression :
+    zhQuarterPreFix 2019 4 = .ok (Py.ofString "(2019-10-01,0001-01-01,P3M)") ⟨⟨2019, 10, 1⟩, 0⟩ DateUtils.minValue
+      ⟨⟨2019, 10, 1⟩, 0⟩ DateUtils.minValue ∧
+    zhQuarterPreFix 2019 3 = zhQuarter 2019 3 := by
   constructor <;> decide +kernel
 
 end RTV.ZhDT
